@@ -241,6 +241,61 @@ run_a7_at (unsigned pad)
 }
 #endif
 
+// --- A8: pointer elements built from ARRAY lvalues (array-to-pointer conversion): a range whose
+//     reference type is an array (the rows of a two-dimensional array), and emplace with an array
+template <unsigned N>
+static void
+run_array_sources (void)
+{
+  static int grid[5][4];
+  static const char name_a[] = "alpha", name_b[] = "be", name_c[] = "c";
+  const char *type = "pointer <- array";
+  {
+    gch::small_vector<int *, N> v (grid, grid + 3);
+    std::vector<int *> s (grid, grid + 3);
+    bool ok = v.size () == s.size ();
+    for (std::size_t i = 0; ok && i < s.size (); ++i)
+      ok = v[i] == s[i] && v[i] == &grid[i][0];
+    expect (ok, type, "range constructor from rows of int[5][4]");
+    v.assign (grid + 1, grid + 5); s.assign (grid + 1, grid + 5);
+    ok = v.size () == s.size ();
+    for (std::size_t i = 0; ok && i < s.size (); ++i)
+      ok = v[i] == s[i];
+    expect (ok, type, "assign from rows");
+    v.insert (v.begin () + 1, grid, grid + 2); s.insert (s.begin () + 1, grid, grid + 2);
+    v.insert (v.end (), grid + 2, grid + 5); s.insert (s.end (), grid + 2, grid + 5);
+    v.append (grid, grid + 1); s.insert (s.end (), grid, grid + 1);
+    ok = v.size () == s.size ();
+    for (std::size_t i = 0; ok && i < s.size (); ++i)
+      ok = v[i] == s[i];
+    expect (ok, type, "insert / append from rows");
+    gch::small_vector<const int *, N> c (grid, grid + 5);
+    ok = c.size () == 5;
+    for (std::size_t i = 0; ok && i < 5; ++i)
+      ok = c[i] == &grid[i][0];
+    expect (ok, type, "const int* from rows");
+    gch::small_vector<void *, N> w (grid, grid + 5);
+    ok = w.size () == 5;
+    for (std::size_t i = 0; ok && i < 5; ++i)
+      ok = w[i] == static_cast<void *> (&grid[i][0]);
+    expect (ok, type, "void* from rows");
+  }
+  {
+    gch::small_vector<const char *, N> v;
+    std::vector<const char *> s;
+    v.emplace_back (name_a); s.emplace_back (name_a);
+    v.emplace (v.begin (), name_b); s.emplace (s.begin (), name_b);
+    v.emplace_back (name_c); s.emplace_back (name_c);
+    v.emplace (v.end (), name_a); s.emplace (s.end (), name_a);
+    v.push_back (name_b); s.push_back (name_b);
+    v.insert (v.begin () + 1, name_c); s.insert (s.begin () + 1, name_c);
+    bool ok = v.size () == s.size ();
+    for (std::size_t i = 0; ok && i < s.size (); ++i)
+      ok = v[i] == s[i];
+    expect (ok, type, "emplace / emplace_back / push_back / insert with char arrays");
+  }
+}
+
 // --- value-initialisation of trivially constructible types whose null value is not all-zero
 //     bytes (pointers to data members), alone and inside a trivial aggregate
 struct rec { int a; int b; };
@@ -285,6 +340,7 @@ main (void)
   run_a3<0> (); run_a3<2> (); run_a3<16> ();
   run_assignable<a4, 0> ("a4"); run_assignable<a4, 3> ("a4"); run_assignable<a4, 16> ("a4");
   run_assignable<a5, 0> ("a5"); run_assignable<a5, 3> ("a5"); run_assignable<a5, 16> ("a5");
+  run_array_sources<0> (); run_array_sources<2> (); run_array_sources<16> ();
   run_assignable<a6, 0> ("a6(operator&)"); run_assignable<a6, 3> ("a6(operator&)"); run_assignable<a6, 16> ("a6(operator&)");
 #if __cplusplus >= 201703L
   for (unsigned pad = 0; pad < 64; pad += 16)
